@@ -117,7 +117,13 @@ def run (c : Case) : String :=
         let term := parseEnd (c.getD "term" "-")
         if c.getD "after" "0" != "0" then s!"res {c.id} accept=f why=after-terminal" else
         if accepts cfg inp e obs term then s!"res {c.id} accept=t why=-"
-        else s!"res {c.id} accept=f why={why cfg inp e obs term}"
+        else
+          -- second verdict with the slack the harness measured on its own ticker (2·jit): reported
+          -- separately, the Go side always answers `accept=t why=-`
+          let jit := (c.getD "jit" "0").toNat?.getD 0
+          let cfg' : Cfg := { cfg with slack := cfg.slack + 2 * jit }
+          let w2 := if accepts cfg' inp e obs term then "t" else "f"
+          s!"res {c.id} accept=f why={why cfg inp e obs term} withslack={w2}"
       | _, _ => s!"res {c.id} accept=f why=unparsable-observation"
     | _, _ => s!"res {c.id} accept=f why=no-observation"
   | _ => s!"res {c.id} unsupported"
